@@ -5,7 +5,7 @@ import random
 from hypothesis import strategies as st
 
 from pbt.common import impl
-from pbt.common.core import Violation, digest, enc, run_hypothesis
+from pbt.common.core import CaseTimeout, Violation, digest, enc, run_hypothesis
 from pbt.gen import models as gm
 from pbt.gen import programs as gp
 from pbt.refsem import jumpvm
@@ -97,7 +97,10 @@ def gen_vm_program(rnd, size):
                     classes.add('data-helper-with-variables')
                 out.append({'expr': {'name': 'r', 'expr': call_expr(helper, *args)}})
                 classes.add('callback')
-            elif k < 0.92 and not in_func and depth == 0 and len(files) < 4:
+            elif k < 0.92 and len(files) < 4 and ((not in_func and depth == 0) or (in_func and rnd.random() < 0.5)):
+                # (an include statement inside a function body runs when the function does - also when a library function calls it back)
+                if in_func:
+                    classes.add('include-inside-function')
                 name = 'inc%d.bare' % len(files)
                 files[name] = None      # reserve the name (acyclic: a file only includes files created after it)
                 files[name] = {'statements': block(rnd.choice([0, 1, 2, 3, 4, 5]), 1, False) + ([rnd.choice([{'return': {}}, {'return': {'expr': {'number': 1.0}}}, {'return': {'expr': V('n')}}]), c08.log_stmt(tag('dead'))] if rnd.random() < 0.3 else [])}
@@ -148,12 +151,25 @@ def gen_vm_program(rnd, size):
     return {'statements': root}, files, classes
 
 
+MARKER_CAP = 3 * 5000       # no run of this check may emit more markers than that (each is a statement; the largest budget is BIG)
+
+
+def _capped_log(logs):
+    def log(m):
+        logs.append(('log', m))
+        if len(logs) > MARKER_CAP:
+            raise impl.bs.RuntimeError('harness: more than %d markers - the statement budget did not stop the run' % MARKER_CAP)
+    return log
+
+
 def run_impl_model(model, files_text, limit, globals0):
     logs = []
     g = copy.deepcopy(globals0)
-    opts = {'globals': g, 'logFn': lambda m: logs.append(('log', m)), 'maxStatements': limit, 'fetchFn': lambda req: files_text.get(req['url'])}
+    opts = {'globals': g, 'logFn': _capped_log(logs), 'maxStatements': limit, 'fetchFn': lambda req: files_text.get(req['url'])}
     try:
         res = ('ok', impl.bs.execute_script(model, opts))
+    except CaseTimeout:
+        res = ('runtime-error', 'harness: the run was still going after minutes - the statement budget did not stop it')
     except impl.bs.RuntimeError as e:
         res = ('runtime-error', str(e))
     except RecursionError:
@@ -298,9 +314,11 @@ def run_structured(model, limit, globals0):
     g = copy.deepcopy(globals0)
     g['probe'] = make_probe(logs)
     g['cc'] = make_cc(logs, [True, False, True])
-    opts = {'globals': g, 'logFn': lambda m: logs.append(('log', m)), 'maxStatements': limit, 'fetchFn': lambda req: INC_FILES.get(req['url'])}
+    opts = {'globals': g, 'logFn': _capped_log(logs), 'maxStatements': limit, 'fetchFn': lambda req: INC_FILES.get(req['url'])}
     try:
         res = ('ok', impl.bs.execute_script(model, opts))
+    except CaseTimeout:
+        res = ('runtime-error', 'harness: the run was still going after minutes - the statement budget did not stop it')
     except impl.bs.RuntimeError as e:
         res = ('runtime-error', str(e))
     except RecursionError:
